@@ -97,6 +97,10 @@ class Expr:
             return VBuiltin('spec.' + name)
         if name == 'MISSING' and module == '$spec':
             return VVal(self.th.const('sentinel:pane.field._MISSING'), py=None)
+        if name == 'NotImplementedV' and module == '$spec':
+            return VVal(self.th.NotImplV)
+        if name == 'ANY' and module == '$spec':
+            return VVal(self.th.const('typing:Any'))
         if (module, name) in idx.class_by_mod:
             return VClass(name)
         key = f'{module}:{name}'
@@ -111,6 +115,20 @@ class Expr:
                 return self.const_sv(expr.value)
             if isinstance(expr, ast.Call) and isinstance(expr.func, ast.Name) and expr.func.id in ('_Missing', 'object'):
                 return VVal(self.th.const(f'sentinel:{module}.{name}'), py=None)
+            if isinstance(expr, ast.Tuple) and (module, name) not in self.no_eval_consts:
+                # tuple-of-classes constants such as _ScalarType / _DataType: evaluate the real expression
+                try:
+                    saved = (self.cur_module, self.spec_mode)
+                    self.cur_module, self.spec_mode = module, True
+                    try:
+                        r, _ = self.ev1(expr, State({}, []))
+                    finally:
+                        self.cur_module, self.spec_mode = saved
+                    if isinstance(r, VTuple) and all(isinstance(x, VClass) for x in r.items):
+                        return r
+                except OutOfSubset:
+                    pass
+                self.no_eval_consts.add((module, name))
             # module-level value we do not evaluate: opaque, stable constant
             return self.mkval(self.th.const(f'glob:{module}.{name}'), self.shape_of('$' + name))
         if name in BUILTIN_EXC or name in BUILTIN_CLASSES:
@@ -488,6 +506,9 @@ class Expr:
         return self.bind(self.ev(node.test, st), k)
 
     def ite_sv(self, c, a: SV, b: SV, st: State) -> SV:
+        if isinstance(a, (VClass, VFunc, VBuiltin, VIter, VGen)) or isinstance(b, (VClass, VFunc, VBuiltin, VIter, VGen)):
+            if not self.spec_mode:
+                raise OutOfSubset('conditional value of callable kind: paths are kept apart')
         if isinstance(a, VBool) and isinstance(b, VBool):
             return VBool(z3.If(c, a.b, b.b))
         if isinstance(a, VInt) and isinstance(b, VInt):
@@ -563,6 +584,8 @@ class Expr:
 
     def ev_Starred(self, node, st):
         raise OutOfSubset('starred expression', node)
+
+    no_eval_consts = set()
 
     # ---- subscripts -----------------------------------------------------------------
     def ev_Subscript(self, node, st):
